@@ -506,6 +506,17 @@ func bvBin(op string, a, b *Term) *Term {
 			return BVConst(w, r)
 		}
 	}
+	// unsigned division / remainder by a power of two: shift / mask (no division for the solver)
+	if (op == "bvudiv" || op == "bvurem") && !a.Const && b.Const && b.CBig == nil && w <= 64 && b.CV != 0 && b.CV&(b.CV-1) == 0 {
+		k := uint64(0)
+		for b.CV>>k != 1 {
+			k++
+		}
+		if op == "bvudiv" {
+			return bvBin("bvlshr", a, BVConst(w, k))
+		}
+		return bvBin("bvand", a, BVConst(w, b.CV-1))
+	}
 	zero := func(t *Term) bool { return t.Const && t.CBig == nil && t.CV == 0 || t.Const && t.CBig != nil && t.CBig.Sign() == 0 }
 	ones := func(t *Term) bool { return t.Const && t.CBig == nil && t.CV == mask(w) && w <= 64 }
 	switch op {
